@@ -21,6 +21,8 @@ import Verif.Drv.LinkRecog
 import Verif.Drv.InlineRecog
 import Verif.Drv.GfmRender
 import Verif.Drv.TokenRules
+import Verif.Drv.ScanRules
+import Verif.Drv.InlineLoop
 
 /-- model name → request handler (one request line in, one answer line out). -/
 def models : List (String × (String → String)) :=
@@ -58,7 +60,9 @@ def models : List (String × (String → String)) :=
    ("linkrecog", Verif.Drv.LinkRecog.step),
    ("inlinerecog", Verif.Drv.InlineRecog.step),
    ("gfm", Verif.Drv.GfmRender.step),
-   ("tokenrules", Verif.Drv.TokenRules.step)]
+   ("tokenrules", Verif.Drv.TokenRules.step),
+   ("scanrules", Verif.Drv.ScanRules.step),
+   ("inlineloop", Verif.Drv.InlineLoop.step)]
 
 partial def loop (h : IO.FS.Stream) (out : IO.FS.Stream) (f : String → String) : IO Unit := do
   let line ← h.getLine
